@@ -84,6 +84,32 @@ Theorem C01_no_runtime_step_touches_requested_effects : forall fuel cid w H r H'
   poll_next fuel cid w H = Some (r, H') -> exists requested, hout H' = hout H ++ requested.
 Proof. exact Perm.hout_poll_next. Qed.
 
+(* Below the core's channel: exactly-once hand-over on every HOP between a hosted command and its host, at any nesting
+   level.  (1) the effect queue of every command is FIFO through every function of the runtime (it only loses at the
+   front and gains at the back: nothing is duplicated into it or taken out of its middle); (2) Stream::poll_next of a
+   command hands the host the element at the head of its queue and removes exactly that element; (3) the hosting
+   future appends exactly that element (through its mapping) to the back of its own command's queue, once, and polls
+   again.  (Rt/Fifo.v over the primitive-aware frame principle Rt/Frame2.v.) *)
+From Crux Require Rt.Fifo.
+Theorem C01_effect_queues_are_fifo : forall fuel cid w H r H' c, poll_next fuel cid w H = Some (r, H') ->
+  Fifo.fifo (c_eff (gcmd c H)) (c_eff (gcmd c H')).
+Proof. intros fuel cid w H r H' c E. exact (proj2 (Fifo.fifo_poll_next fuel cid w H r H' E c)). Qed.
+Theorem C01_hosted_command_hands_over_the_head_of_its_queue : forall fuel cid w H e H',
+  poll_next (S fuel) cid w H = Some (PNEffect e, H') ->
+  exists H1 rest, settle fuel cid (ucmd cid (set_atomic (Some w)) H) = Some H1 /\
+    c_eff (gcmd cid H1) = e :: rest /\ H' = ucmd cid (set_eff rest) H1.
+Proof.
+  intros fuel cid w H e H' E. destruct (Fifo.poll_next_hands_over_the_head fuel cid w H _ H' E) as (H1 & S1 & rest & _ & E2 & E3).
+  exists H1, rest. split; [exact S1 | split; [exact E2 | exact E3]].
+Qed.
+Theorem C01_host_appends_it_once_and_polls_again : forall f c w fs H x meff mev k e H1,
+  f_leaf fs = LHost x meff mev k -> poll_next f x w H = Some (PNEffect e, H1) ->
+  poll (S f) c w fs H = poll f c w fs (push_eff c (map_eff meff e) H1) /\
+  c_eff (gcmd c (push_eff c (map_eff meff e) H1)) = c_eff (gcmd c H1) ++ [map_eff meff e].
+Proof.
+  intros f c w fs H x meff mev k e H1 EL E. split; [eapply Fifo.host_hop_effect; eassumption | apply Fifo.push_eff_appends].
+Qed.
+
 (* The same for apps written against the LEGACY capability API (coq/Rt/Legacy.v: QueuingExecutor::run_all with its
    did_some_work flag, CapabilityContext::{spawn, notify_shell, update_app, request_from_shell, stream_from_shell}):
    run_all returns only with the spawn queue and the ready queue empty; the event loop returns only with, in
